@@ -34,4 +34,10 @@ VARIANTS = [
         dict(file=D, old="    for match1, match2 in combinations(all_matches, 2):", new="    for match1, match2 in product(all_matches, all_matches):")]),
     dict(name='benign-rename-match-vars', expect='silent', edits=[
         dict(file=D, old="                if out_idx != out_jdx:\n                    graph_out.add_edge(out_idx, out_jdx)", new="                if not out_idx == out_jdx:\n                    graph_out.add_edge(out_idx, out_jdx)")]),
+    dict(name='cover-any-item-qualifies', expect='fire', key='MPT-mod-groups|exact-cover', edits=[
+        dict(file=D, old="        if all(item in to_cover for item in option):", new="        if any(item in to_cover for item in option):")]),
+    dict(name='first-modification-placement-only', expect='fire', key='MPT-mod-groups|all-placements', edits=[
+        dict(file=D, old="            modified_nodes -= set(mol_to_mod)\n    return matches", new="            modified_nodes -= set(mol_to_mod)\n            break\n    return matches")]),
+    dict(name='uncovered-group-aborts-selection', expect='fire', key='MPT-mod-groups|select', edits=[
+        dict(file=D, old="                           type='unmapped-atom')\n            continue\n        needed_mod_mappings.update(covered_by)", new="                           type='unmapped-atom')\n            break\n        needed_mod_mappings.update(covered_by)")]),
 ]
